@@ -246,4 +246,5 @@ func main() {
 		runHistory(o, h, ops, h%10 == 0)
 	}
 	failHistories(o)
+	randomHeaders(o)
 }
